@@ -302,13 +302,30 @@ def run(tier):
             return None
         return P.norm_path(k, c.get("rpath"))
 
+    callers_of = {}
+    for k_ in P.body:
+        for _, _, _, tg_ in P.call_sites(k_):
+            for x_ in tg_:
+                callers_of.setdefault(x_, set()).add(k_)
+
+    def exception_for(k, ck, depth=0):
+        """the table's reason, if (k, ck) is listed or k is a private part of a listed function (its only callers, transitively)"""
+        if (k, ck) in EXCEPTIONS:
+            return EXCEPTIONS[(k, ck)]
+        cs = callers_of.get(k, set()) - {k}
+        if depth < 3 and cs and "{closure" not in k and all(c.rsplit("::", 2)[0] == k.rsplit("::", 1)[0] or c.rsplit("::", 1)[0] == k.rsplit("::", 1)[0] for c in cs):
+            rs = [exception_for(c, ck, depth + 1) for c in cs]
+            if all(rs):
+                return rs[0]
+        return None
+
     def site_ok(k, e):
         kind, bb, d = e
         if kind == "bail":
             return d[0]
         if kind == "try":
             ck = callee_key(k, d)
-            if ck is not None and (k, ck) in EXCEPTIONS:
+            if ck is not None and exception_for(k, ck):
                 return True
             if ck is not None and ck in attributed:
                 return attributed[ck]
@@ -342,8 +359,8 @@ def run(tier):
                     cname = ck or "|".join(sorted({MU.callee_names(c)[1].rsplit("::", 1)[-1] for c in d}))
                 else:
                     cname = ck or (MU.callee_names(d)[1] if d else "<not a call result>")
-                if ck is not None and (k, ck) in EXCEPTIONS:
-                    rep.ob("C15.attr|%s|?|%s" % (k, cname), True, "%s: `?` on %s — exception: %s" % (fn_short, cname.split("::")[-1], EXCEPTIONS[(k, ck)]), loc=loc, nontrivial=False)
+                if ck is not None and exception_for(k, ck):
+                    rep.ob("C15.attr|%s|?|%s" % (k, cname), True, "%s: `?` on %s — exception: %s" % (fn_short, cname.split("::")[-1], exception_for(k, ck)), loc=loc, nontrivial=False)
                     continue
                 if ck is not None and ck in attributed:
                     if attributed[ck]:
